@@ -56,7 +56,7 @@ def render(trees):
         # a skip with a reason, with an empty reason, or the bare exception: all three are skips
         skip = [f"tbot.skip('n{name}')", "tbot.skip('')", "raise tbot.SkipException()"][name % 3]
         body.append({0: "pass", 1: f"raise VerifError('n{name}')", 2: skip, 3: "raise KeyboardInterrupt()",
-                     4: "import sys; sys.exit(3)", 5: f"import sys; sys.exit('fatal: n{name}')"}[b])
+                     4: "import sys; sys.exit(3)", 5: f"import sys; sys.exit('fatal: n{name}')", 6: "import sys; sys.exit(0)"}[b])
         if form == 0:
             lines.append("@tbot.testcase")
             lines.append(f"def n{name}():")
@@ -237,7 +237,7 @@ class CliSuite(Suite):
             escaped = None
             for catch, k in kids:
                 o = ev_node(k)
-                if o in ("kbd", "exit3", "exit1") or (o == "exc" and not catch):
+                if o in ("kbd", "exit3", "exit1", "exit0") or (o == "exc" and not catch):
                     escaped = o
                     break
                 if o == "exc" and catch == 2:
@@ -254,7 +254,7 @@ class CliSuite(Suite):
             if b == 2:
                 expect[name] = ("any", True); return None
             expect[name] = (False, False)
-            return {3: "kbd", 4: "exit3", 5: "exit1"}[b]
+            return {3: "kbd", 4: "exit3", 5: "exit1", 6: "exit0"}[b]
         final = None
         for t in case["trees"]:
             final = ev_node(t)
@@ -275,6 +275,8 @@ class CliSuite(Suite):
         if final is None:
             if code != 0 or tend != [[4, True]]:
                 fails.append(f"no exception escaped a top-level testcase but exit status {code}, final event {tend}")
+        elif final == "exit0":
+            pass        # sys.exit(0) from a testcase: the testcases' end events are judged above, the run's verdict is left open
         else:
             want = {"kbd": 130, "exit3": 3}.get(final, 1)
             if code != want or tend != [[4, False]]:
@@ -308,7 +310,7 @@ class ExitSuite(CliSuite):
                 if depth > 0:
                     for _ in range(rng.randint(0, 2)):
                         kids.append([rng.choice([0, 1, 2, 2]), node(depth - 1)])
-                return [name, rng.choice([0, 1, 2]), kids, rng.choice([0, 0, 1, 1, 2, 4, 5])]
+                return [name, rng.choice([0, 1, 2]), kids, rng.choice([0, 0, 1, 1, 2, 4, 5, 6])]
             trees = [node(rng.choice([1, 2])) for _ in range(rng.randint(1, 2))]
             for t in trees:
                 if t[1] == 2:
@@ -322,4 +324,59 @@ class ExitSuite(CliSuite):
         return None
 
 
-SUITES = [CliSuite(), ExitSuite()]
+class LibSuite(Suite):
+    """testcases used as a library (no command line: the nesting level starts at -1, nothing is printed): after every
+    outermost testcase, whatever its form and outcome, the nesting level is back to its initial value.  Oracle only."""
+    name = "library"
+    model_fn = None
+
+    def gen(self, tier, rng):
+        suite = CliSuite()
+        for form in (0, 1, 2):
+            for b in (0, 1, 2):
+                yield {"trees": [[0, form, [], b]], "initial": -1}
+                yield {"trees": [[0, form, [[1, [1, (form + 1) % 3, [], b]]], 0], [2, form, [], b]], "initial": -1}
+                yield {"trees": [[0, form, [], b]], "initial": 2}
+
+    def run(self, case):
+        d = tempfile.mkdtemp(prefix="tv_c16_")
+        try:
+            open(os.path.join(d, "tvmod.py"), "w").write(render(case["trees"]))
+            names = [f"n{t[0]}" for t in case["trees"]]
+            prog = ("import json, sys, tbot, tbot.log\n"
+                    "import tvmod\n"
+                    f"tbot.log.NESTING = {case['initial']}\n"
+                    "out = []\n"
+                    f"for n in {names!r}:\n"
+                    "    try:\n"
+                    "        getattr(tvmod, n)()\n"
+                    "        r = 'ok'\n"
+                    "    except BaseException as e:\n"
+                    "        r = type(e).__name__\n"
+                    "    out.append([n, r, tbot.log.NESTING])\n"
+                    "sys.stderr.write('RESULT ' + json.dumps(out))\n")
+            env = dict(os.environ, PYTHONPATH="/repo:" + d, CLICOLOR="0")
+            r = subprocess.run([sys.executable, "-c", prog], cwd=d, env=env, capture_output=True, text=True, timeout=120)
+            line = [x for x in r.stderr.splitlines() if x.startswith("RESULT ")]
+            return json.loads(line[-1][7:]) if line else [["crash", r.stderr[-300:], None]]
+        finally:
+            shutil.rmtree(d, ignore_errors=True)
+
+    def oracle(self, case, obs):
+        fails = []
+        for n, r, nesting in obs:
+            if nesting != case["initial"]:
+                fails.append(f"after the outermost testcase {n} ({r}) the nesting level is {nesting}, it was {case['initial']} before")
+        return fails
+
+    def nontrivial(self, case, obs):
+        return True
+
+    def klass(self, case, obs):
+        return f"initial={case['initial']}"
+
+    def finding_key(self, case, obs, failure):
+        return None
+
+
+SUITES = [CliSuite(), ExitSuite(), LibSuite()]
